@@ -179,7 +179,7 @@ def _sparse(fmt, vals, rows, cols, shape):
     return m if fmt == 'coo' else getattr(m, 'to' + fmt)()
 
 
-def _make_comp(Tv, A, D, fmt, rs, cs, directional=False, mfree=None, curv=0.0):
+def _make_comp(Tv, A, D, fmt, rs, cs, directional=False, mfree=None, curv=0.0, const=False):
     import openmdao.api as om
     ro, co = _blocks(rs, cs)
     r, c = Tv.shape
@@ -232,7 +232,21 @@ def _make_comp(Tv, A, D, fmt, rs, cs, directional=False, mfree=None, curv=0.0):
                     if not Db.any():
                         continue
                     of, wrt = 'y%d' % i, 'x%d' % j
-                    if fmt == 'dense':
+                    Ab = A[ro[i]:ro[i + 1], co[j]:co[j + 1]]
+                    if const:
+                        # constant partials: the (possibly wrong) analytic values are given at
+                        # declaration and never written again by compute_partials
+                        rr, cc = np.nonzero(Db)
+                        if fmt == 'dense':
+                            self.declare_partials(of, wrt, val=Ab.copy())
+                        elif fmt == 'diagonal':
+                            self.declare_partials(of, wrt, diagonal=True, val=np.diag(Ab).copy())
+                        elif fmt == 'rowscols':
+                            self.declare_partials(of, wrt, rows=rr, cols=cc, val=Ab[rr, cc])
+                        else:
+                            self.declare_partials(of, wrt, val=_sparse(fmt, Ab[rr, cc], rr, cc,
+                                                                       Db.shape))
+                    elif fmt == 'dense':
                         self.declare_partials(of, wrt)
                     elif fmt == 'diagonal':
                         self.declare_partials(of, wrt, diagonal=True)
@@ -253,6 +267,8 @@ def _make_comp(Tv, A, D, fmt, rs, cs, directional=False, mfree=None, curv=0.0):
                 outputs['y%d' % i] = y[ro[i]:ro[i + 1]]
 
         def compute_partials(self, inputs, partials):
+            if const:
+                return
             for i in range(len(rs)):
                 for j in range(len(cs)):
                     Db = D[ro[i]:ro[i + 1], co[j]:co[j + 1]]
@@ -401,7 +417,8 @@ def run_partials(cfg):
         elif mfree == 'rev_wrong':
             Ar[pos[-1]] -= 0.75
         mf = (Af, Ar)
-    comp = _make_comp(Tlin, A, D, fmt, rs, cs, directional=directional, mfree=mf, curv=curv)
+    comp = _make_comp(Tlin, A, D, fmt, rs, cs, directional=directional, mfree=mf, curv=curv,
+                      const=bool(cfg.get('const')) and not curv)
     p = om.Problem(reports=None)
     p.model.add_subsystem('c', comp)
     steps_used = None
@@ -423,6 +440,14 @@ def run_partials(cfg):
             p.run_model()
             data = p.check_partials(out_stream=stream, compact_print=(printing == 'compact'),
                                     abs_err_tol=atol, rel_err_tol=rtol, **kw)
+            for _ in range(int(cfg.get('calls', 1)) - 1):
+                # a second identical call must report the same thing (the first one must not have
+                # written its approximation into the component's own sub-jacobians)
+                if stream is not None:
+                    stream.seek(0)
+                    stream.truncate()
+                data = p.check_partials(out_stream=stream, compact_print=(printing == 'compact'),
+                                        abs_err_tol=atol, rel_err_tol=rtol, **kw)
     except Exception as exc:
         import traceback
         loc = traceback.extract_tb(exc.__traceback__)[-1]
@@ -747,6 +772,12 @@ def _one_T(kind, shape, tb, pal, tier, add):
                 add(run_partials(dict(b0, fmt=fmt, curv=0.5)))
                 add(run_partials(dict(b0, fmt=fmt, curv=0.5, nsteps=2)))
                 add(run_partials(dict(b0, fmt=fmt, curv=0.5, nsteps=2, akind='wrong1')))
+                add(run_partials(dict(b0, fmt=fmt, calls=2)))
+                add(run_partials(dict(b0, fmt=fmt, calls=2, akind='wrong1')))
+                add(run_partials(dict(b0, fmt=fmt, calls=2, akind='factor', method='cs')))
+                add(run_partials(dict(b0, fmt=fmt, const=True)))
+                add(run_partials(dict(b0, fmt=fmt, const=True, calls=2, akind='wrong1')))
+                add(run_partials(dict(b0, fmt=fmt, const=True, calls=2, akind='sign', method='cs')))
                 add(run_partials(dict(b0, fmt=fmt, tols=(2.0 ** -6, 0.125))))
                 add(run_partials(dict(b0, fmt=fmt, directional=True)))
                 add(run_partials(dict(b0, fmt=fmt, print='full')))
